@@ -622,7 +622,11 @@ def tSearch : List FileTable := [
     ]⟩
   ]⟩,
   ⟨"search/solve.rs", [
-    ⟨"PeriodicKdTree::new", 8486207424905, [
+    ⟨"PeriodicKdTree::new", 93430850478129, [
+      ex .unwrap "new_lattice . basis . try_inverse ( ) . unwrap ( )" 1 pNonSingular
+        "nalgebra's 3x3 try_inverse returns None only when the computed determinant is exactly 0.0; new_lattice is a rigid rotation of the Minkowski-reduced (magnetic) primitive lattice, a unimodular / index-n re-basing of the input lattice, whose inverse the callers have already taken (LOW CONFIDENCE for |entries| < ~1e-108 where the determinant underflows)",
+      ex .call "reciprocal_basis . row ( i )" 1 (.loopBounded "(0..3).map(|i| ..) on a Matrix3<f64>")
+        "row index below the fixed dimension 3",
       ex .index "new_position [ 0 ]" 2 .matrixLiteralIndex "new_position = *position with position : &Position = Vector3<f64>",
       ex .index "new_position [ 1 ]" 2 .matrixLiteralIndex "Vector3<f64>",
       ex .index "new_position [ 2 ]" 2 .matrixLiteralIndex "Vector3<f64>"
@@ -666,12 +670,12 @@ def tSearch : List FileTable := [
 
 def tSymmetrize : List FileTable := [
   ⟨"symmetrize/magnetic_standardize.rs", [
-    ⟨"StandardizedMagneticCell::new", 212234981420392, [
-      ex .index "ref_std_cell . site_mapping [ i ]" 1 (.invariant "conventional_cell_has_at_least_as_many_sites")
-        "i < number of sites of the primitive magnetic cell; ref_std_cell.site_mapping has one entry per site of the conventional cell, which Transformation::transform_cell builds with num_atoms * |det| >= num_atoms sites",
-      ex .index "prim_mag_cell . magnetic_cell . magnetic_moments [ ref_std_cell . site_mapping [ i ] ]" 1
-        (.loopBounded "entries of site_mapping are enumerate() indices of the primitive cell's positions")
-        "the primitive standardized cell has the sites of prim_mag_cell.magnetic_cell.cell, one moment per site"
+    ⟨"StandardizedMagneticCell::new", 44048450810653, [
+      ex .index "prim_cell . positions [ inv_perm . apply ( i ) ]" 1
+        (.loopBounded "i in 0..prim_cell.num_atoms(); inv_perm = inverse of a permutation of the symmetry search on the same primitive magnetic cell")
+        "the permutations of PrimitiveMagneticSymmetrySearch have one entry per site of prim_mag_cell.magnetic_cell.cell (built from kd-tree site indices < n), prim_cell is a clone of that cell: size = number of sites, entries below it",
+      ex .index "prim_cell . positions [ i ]" 2 (.loopBounded "(0..prim_cell.num_atoms()).map(|i| ..)")
+        "index below the length of the vector whose length bounds the range"
     ]⟩,
     ⟨"StandardizedMagneticCell::reference_symmetry_operations_and_permutations", 133842852255515, [
       ex .index "contained [ i ]" 1 (.loopBounded "i enumerates magnetic_symmetry_search.permutations; contained = vec![false; magnetic_operations.len()]")
